@@ -409,8 +409,15 @@ Proof.
   decide_rels. resolve_if. rewrite ?Ropp_0.
   rewrite ?(Csqrt_nonneg 0), ?(Csqrt_nonneg (4 * m ^ 2)) by nra. rewrite sqrt_0. lift_R.
   assert (Hs : (sqrt (4 * m ^ 2) <> 0)%R) by (apply Rgt_not_eq, sqrt_lt_R0; nra).
-  repeat match goal with |- context [Clog (RtoC ?x)] =>
-    lazymatch x with (-1)%R => fail | _ => replace x with (-1)%R by (unfold_pows; field; lra) end end.
+  to_mk.
+  repeat match goal with
+  | |- context [Clog (mkC ?x ?y)] =>
+      replace (mkC x y) with (RtoC (-1)) by (rewrite mk_R; apply mk_eq; unfold_pows; field; lra)
+  | |- context [mkC ?x ?y <> 0] =>
+      replace (mkC x y) with (RtoC (-1)) by (rewrite mk_R; apply mk_eq; unfold_pows; field; lra)
+  | |- context [Clog (RtoC ?x)] =>
+      lazymatch x with (-1)%R => fail | _ => replace x with (-1)%R by (unfold_pows; field; lra) end
+  end.
   rewrite Clog_neg_mk by lra. to_mk. split.
   - wd_solve; try apply PI_neq0; nra.
   - rewrite (mk_R 0). apply mk_eq; unfold_pows; field; repeat split; try exact Hs; try apply PI_neq0; lra.
